@@ -278,6 +278,34 @@ def check_arm_table(cx, fn, hg, site, acc, rep):
         check_provider(cx, f, rep)
 
 
+def value_leaves(e):
+    """texts of the values an expression can evaluate to, looking through `?`, blocks, `match`, `if`, `Ok(..)`; `Err(..)` / `return` yield none"""
+    if e is None:
+        return []
+    k = e['k']
+    if k in ('Try', 'Paren'):
+        return value_leaves(e['expr'])
+    if k == 'Block':
+        st = e.get('stmts') or []
+        if st and st[-1]['k'] == 'Expr' and not st[-1]['semi']:
+            return value_leaves(st[-1]['expr'])
+        return ['<unit>']
+    if k == 'Match':
+        out = []
+        for a in e['arms']:
+            out += value_leaves(a['body'])
+        return out
+    if k == 'If':
+        return value_leaves(e['then']) + (value_leaves(e['else']) if e.get('else') is not None else ['<unit>'])
+    if k == 'Call' and e['func']['k'] == 'Path' and e['func']['path']['s'] == 'Ok' and len(e['args']) == 1:
+        return value_leaves(e['args'][0])
+    if k == 'Call' and e['func']['k'] == 'Path' and e['func']['path']['s'] == 'Err':
+        return []
+    if k == 'Return':
+        return []
+    return [es(e).replace(' ', '').strip('()')]
+
+
 def check_provider(cx, f, rep):
     """DISCR-VALUE: counter idiom in the discriminant provider."""
     where = f.qname
@@ -355,7 +383,11 @@ def check_provider(cx, f, rep):
         negated = any(c['k'] == 'arm' and 'Expr::Unary' in pat_s(c['pat']) for c in a.ctx)
         norm = txt.replace(' ', '')
         if negated:
-            ok = norm in ('-i', 'i128::MIN') or norm.startswith('-')
+            # every value the expression can yield (through `?`, `match`, `if`, `Ok(..)`; `Err(..)` leaves the function) is the negated
+            # parsed magnitude or i128::MIN
+            leaves = value_leaves(a.value if opt_value is None else a.value['args'][0])
+            ok = bool(leaves) and all(x in ('i128::MIN',) or (x.startswith('-') and len(x) > 1) for x in leaves) \
+                and ('base10_parse' in norm or all(c_['k'] != 'arm' or True for c_ in a.ctx))
         else:
             ok = 'base10_parse' in norm
         if not ok:
